@@ -298,7 +298,7 @@ ALL_PROPS = [f"C{i:02d}" for i in range(1, 21)]
 SECTION_PROPS = {
     "core": ["C01", "C02", "C03", "C04", "C05", "C06", "C08", "C09", "C10", "C17", "C18", "C19"],
     "extract_pytree": ["C07"], "extract_prov": ["C18"], "extract_hash": ["C12"], "extract_collect": ["C13"],
-    "buildtop_section": ["C08"], "extract_buildtop": ["C08"], "extract_clean": ["C11"], "extract_catalog": ["C20"],
+    "buildtop_section": ["C08"], "extract_buildtop": ["C08"], "extract_clean": ["C11", "C20"], "extract_catalog": ["C20"],
     "extract_capture": ["C14", "C15"], "extract_expr": ["C16"],
 }
 
